@@ -238,6 +238,46 @@ def run_multi_case(case):
             run.cleanup()
 
 
+def run_state_case(case):
+    """No fault at all, but state left on disk by an earlier run: an unusable or foreign private-key file with kp_reuse."""
+    plan = {'default': {'lifetimes_s': [100, LONG], 'chain_lens': [2]}}
+
+    def cfg(d, ca):
+        os.makedirs(d + '/certs', exist_ok=True)
+        kf = d + '/certs/c0_ecdsa-p256.pk.pem'
+        st = case['key_state']
+        if st in ('valid-same-type', 'valid-other-type', 'cut-in-half', 'cut-tail'):
+            C.vtool('mkcert', [{'id': 0, 'out_key': kf, 'key_type': 'ecdsa-p256' if st != 'valid-other-type' else 'rsa2048', 'sans': [['dns', 'x.example']]}])
+            if st.startswith('cut'):
+                b = open(kf, 'rb').read()
+                open(kf, 'wb').write(b[:len(b) // 2] if st == 'cut-in-half' else b[:-30])
+        elif st == 'empty':
+            open(kf, 'wb').close()
+        elif st == 'garbage':
+            open(kf, 'wb').write(b'not a key\n' * 5)
+        elif st == 'cert-instead':
+            C.vtool('mkcert', [{'id': 0, 'out_cert': kf, 'key_type': 'ecdsa-p256', 'not_after': '20400101000000Z', 'not_before': '19700101000000Z', 'sans': [['dns', 'x.example']]}])
+        if case.get('mode') is not None and os.path.exists(kf):
+            os.chmod(kf, case['mode'])
+        return S.std_config(d, ca, [{'name': 'c0', 'identifiers': S.ids('d0.example.org'), 'kp_reuse': case['kp_reuse']}])
+
+    def stop(v):
+        po = v.postops()
+        return len([p for p in po if p['kv'].get('is_success') == 'true']) >= 2 or len(po) >= 4
+    run = S.run_scenario('C07', 'st%d' % case['i'], cfg, plan, stop, timeout=40)
+    res = {'case': case, 'problems': [], 'fired': 1, 'attempts': 0}
+    try:
+        atts = judge_single(run, res, hook_fail=True)
+        if not [a for a in atts if a['postop'] is not None]:
+            res['problems'].append(('postop-missing', 'no attempt was reported in %.0f s' % run.wall))
+        if res['problems']:
+            res['replay_dir'] = run.dir
+        return res
+    finally:
+        if not res['problems']:
+            run.cleanup()
+
+
 def run_shipped_case(case):
     """Shipped binary (real waits): a rejected order must not be retried at once."""
     plan = {'default': {'lifetimes_s': [LONG]}, 'faults': [
@@ -325,10 +365,27 @@ def gen(tier):
         multi_cert.append({'n': n, 'failing': sorted(r.sample(range(n), k)), 'mode': r.choice(['ca', 'ca', 'hook']),
                            'workers': r.choice([None, 1, 2, 4])})
     shipped = [{'mode': 'rejected'}, {'mode': 'unreachable'}]
-    for lst in (ca_cases, hook_cases, multi_cert, shipped):
+    # error storms: the same recoverable error answered to every try of one request of the second attempt
+    storms = []
+    for (kind, nth) in F.positions(1):
+        if not F.is_post(kind):
+            continue
+        for t in ('badNonce', 'serverInternal', 'rateLimited', 'malformed', 'connection', 'dns', 'tls'):
+            act = {'action': 'acme_error', 'type': t, 'status': 400 if t != 'serverInternal' else 500, 'label': 'storm:' + t}
+            storms.append({'n_ids': 1, 'kind': kind, 'nth': nth, 'label': act['label'], 'rules': [F.rule(kind, nth, act, attempt=2, tx_from=0, tx_to=None)]})
+    if tier == 'quick':
+        r.shuffle(storms)
+        first = [c for c in storms if c['label'] == 'storm:badNonce'][:3]
+        storms = first + [c for c in storms if c not in first][:7]
+    ca_cases += storms
+    state = []
+    for ks in ('empty', 'garbage', 'cut-in-half', 'cut-tail', 'cert-instead', 'valid-same-type', 'valid-other-type', 'absent'):
+        for reuse in (True, False):
+            state.append({'key_state': ks, 'kp_reuse': reuse})
+    for lst in (ca_cases, hook_cases, multi_cert, shipped, state):
         for i, c in enumerate(lst):
             c['i'] = i
-    return ca_cases, hook_cases, multi_cert, shipped
+    return ca_cases, hook_cases, multi_cert, shipped, state
 
 
 def sig(cls, case, part):
@@ -347,15 +404,18 @@ def sig(cls, case, part):
         if cls == 'no-pause':
             return 'C07|no-pause|after-failed-attempt'
         return 'C07|%s|multi-cert|%s' % (cls, case['mode'])
+    if part == 'state':
+        return 'C07|%s|key-file-state|%s|kp_reuse=%s' % (cls, case['key_state'], case['kp_reuse'])
     return 'C07|%s|shipped|%s' % (cls, case['mode']) if cls != 'no-pause' else 'C07|no-pause|after-failed-attempt'
 
 
 def run(tier):
     C.build(('harness', 'b1', 'b2'))
     chk = C.Check('C07', LEVEL, tier)
-    ca_cases, hook_cases, multi_cert, shipped = gen(tier)
-    jobs = [('ca', c) for c in ca_cases] + [('hook', c) for c in hook_cases] + [('multi', c) for c in multi_cert] + [('shipped', c) for c in shipped]
-    fn = {'ca': run_ca_case, 'hook': run_hook_case, 'multi': run_multi_case, 'shipped': run_shipped_case}
+    ca_cases, hook_cases, multi_cert, shipped, state = gen(tier)
+    jobs = ([('ca', c) for c in ca_cases] + [('hook', c) for c in hook_cases] + [('multi', c) for c in multi_cert] + [('shipped', c) for c in shipped]
+            + [('state', c) for c in state])
+    fn = {'ca': run_ca_case, 'hook': run_hook_case, 'multi': run_multi_case, 'shipped': run_shipped_case, 'state': run_state_case}
     results = C.parallel(jobs, lambda j: (j[0], fn[j[0]](j[1])))
     gaps = []
     for part, res in results:
@@ -383,7 +443,7 @@ def run(tier):
     chk.exhaustive = (tier == 'thorough')
     chk.rule = ('CA/network single faults (position x action%s), random multi-fault sequences over 3-6 attempts, hook faults '
                 '(5 hook classes x exit codes/signal/unspawnable x invocation index), certificate sets of 2-6 with a failing subset, '
-                'shipped binary with real waits; distinct = cases whose fault was observed to fire' % (', complete for 1 identifier' if tier == 'thorough' else ', stratified sample'))
+                'the same recoverable error answered to every try of one request, unusable / foreign private-key files left on disk with and without kp_reuse, shipped binary with real waits; distinct = cases whose fault was observed to fire' % (', complete for 1 identifier' if tier == 'thorough' else ', stratified sample'))
     chk.assumptions = ['attempt = directory fetch .. post-operation hook', 'CLOCK_MONOTONIC shared by hookrec and mockca',
                        'the verification build pauses 1 s after a failed attempt (shipped value: see DESIGN), all other waits are 0']
     rc = chk.finish()
